@@ -733,6 +733,8 @@ impl FrontendInternal {
         self.check_state()?;
         let hdr = self.new_request_header(code, 0);
         self.main_sock.send_header(&hdr, fds)?;
+        #[cfg(feature = "verif-hooks")]
+        crate::verif::hit("fe.sent", &[u32::from(code) as u64]);
         Ok(hdr)
     }
 
@@ -749,6 +751,8 @@ impl FrontendInternal {
 
         let hdr = self.new_request_header(code, mem::size_of::<T>() as u32);
         self.main_sock.send_message(&hdr, msg, fds)?;
+        #[cfg(feature = "verif-hooks")]
+        crate::verif::hit("fe.sent", &[u32::from(code) as u64]);
         Ok(hdr)
     }
 
@@ -773,6 +777,8 @@ impl FrontendInternal {
         let hdr = self.new_request_header(code, len as u32);
         self.main_sock
             .send_message_with_payload(&hdr, msg, payload, fds)?;
+        #[cfg(feature = "verif-hooks")]
+        crate::verif::hit("fe.sent", &[u32::from(code) as u64]);
         Ok(hdr)
     }
 
@@ -793,6 +799,8 @@ impl FrontendInternal {
         let msg = VhostUserU64::new(queue_index as u64);
         let hdr = self.new_request_header(code, mem::size_of::<VhostUserU64>() as u32);
         self.main_sock.send_message(&hdr, &msg, Some(&[fd]))?;
+        #[cfg(feature = "verif-hooks")]
+        crate::verif::hit("fe.sent", &[u32::from(code) as u64]);
         Ok(hdr)
     }
 
@@ -805,6 +813,8 @@ impl FrontendInternal {
         }
         self.check_state()?;
 
+        #[cfg(feature = "verif-hooks")]
+        crate::verif::hit("fe.before_recv", &[0]);
         let (reply, body, rfds) = self.main_sock.recv_body::<T>()?;
         if !reply.is_reply_for(hdr) || rfds.is_some() || !body.is_valid() {
             return Err(VhostUserError::InvalidMessage);
@@ -821,6 +831,8 @@ impl FrontendInternal {
         }
         self.check_state()?;
 
+        #[cfg(feature = "verif-hooks")]
+        crate::verif::hit("fe.before_recv", &[0]);
         let (reply, body, files) = self.main_sock.recv_body::<T>()?;
         if !reply.is_reply_for(hdr) || !body.is_valid() {
             return Err(VhostUserError::InvalidMessage);
@@ -854,6 +866,8 @@ impl FrontendInternal {
         self.check_state()?;
 
         let mut buf: Vec<u8> = vec![0; hdr.get_size() as usize - mem::size_of::<T>()];
+        #[cfg(feature = "verif-hooks")]
+        crate::verif::hit("fe.before_recv", &[0]);
         let (reply, body, bytes, files) = self.main_sock.recv_payload_into_buf::<T>(&mut buf)?;
         if !reply.is_reply_for(hdr)
             || reply.get_size() as usize != mem::size_of::<T>() + bytes
@@ -875,6 +889,8 @@ impl FrontendInternal {
         }
         self.check_state()?;
 
+        #[cfg(feature = "verif-hooks")]
+        crate::verif::hit("fe.before_recv", &[1]);
         let (reply, body, rfds) = self.main_sock.recv_body::<VhostUserU64>()?;
         if !reply.is_reply_for(hdr) || rfds.is_some() || !body.is_valid() {
             return Err(VhostUserError::InvalidMessage);
